@@ -28,15 +28,15 @@ Agree(m, t) ==
     [] m.k = "ok"     -> t.k = "ok" /\ t.p = m.p
     [] m.k = "create" -> \/ t.k = "create" /\ t.p = m.p
                          \/ t.k = "err" /\ t.e = "ENOENT" /\ t.ce # "ENOENT"  \* nothing can be created here
-    [] m.k = "err"    -> t.k = "err" /\ t.e = m.e /\ t.ce \in {"-", "ENOENT", "EBADF", "ENOTDIR", "ELOOP"}
+    [] m.k = "err"    -> t.k = "err" /\ t.e = m.e                 \* (t.k = "err": the creation failed too)
 
 \* everything the reference says about path argument i of the call of line o
 Ref(o, i) ==
   LET F    == Forest(o.case.f)
       a    == PathArg(o, i)
-      base == Base(F, o.case.cwd, a.d)
-      mf   == Resolve(F, base, a.ps, FALSE)
-      mn   == Resolve(F, base, a.ps, TRUE)
+      base == BaseOf(F, o.case.cwd, a.d, a.ps)
+      mf   == Resolve(F, base, Rel(a.ps), FALSE)
+      mn   == Resolve(F, base, Rel(a.ps), TRUE)
       fl   == FlSet(o)
   IN [mf |-> mf, mn |-> mn,
       exp |-> ExpectedOf(mf, mn, NoFollow(o.case.sc, i, o.case.acc, fl)),
@@ -44,18 +44,22 @@ Ref(o, i) ==
       impl |-> ClassImpl(o.case.sc, i, o.case.acc, fl)]
 
 ModelOK(rf, t) == Agree(rf.mf, t.f) /\ Agree(rf.mn, t.n)
+\* c = "syscall": the runner applied its procfs-alias policy (CheckSyscall("procfs-path")) instead of a
+\* path check.  Acceptable only where nothing is demanded of the path (the kernel touches no object of
+\* the forest); where the kernel resolves the name into the forest the canonical path must be presented.
+ClassOK(rf, s) == IF s.c = "syscall" THEN ~rf.exp.judged ELSE s.c \in rf.classes
 PathOK(rf, s)  == ~rf.exp.judged \/ (s.c # "syscall" /\ s.in /\ s.p \in rf.exp.paths)
 
 JudgeRec(o) ==
   LET np  == NPaths(o.case.sc)
       rf  == IF np = 1 THEN <<Ref(o, 1)>> ELSE <<Ref(o, 1), Ref(o, 2)>>     \* (a tuple: evaluated once)
       full == Len(o.truth) = np /\ Len(o.seen) = np
-      B   == IF full THEN { i \in 1..np : o.seen[i].c \notin rf[i].classes \/ ~PathOK(rf[i], o.seen[i]) } ELSE {}
+      B   == IF full THEN { i \in 1..np : ~ClassOK(rf[i], o.seen[i]) \/ ~PathOK(rf[i], o.seen[i]) } ELSE {}
       v   == IF Len(o.truth) # np \/ \E i \in 1..np : ~ModelOK(rf[i], o.truth[i]) THEN "model"
              ELSE IF Len(o.seen) # np THEN "count"
-             ELSE IF \E i \in 1..np : o.seen[i].c \notin rf[i].classes THEN "class"
+             ELSE IF \E i \in 1..np : ~ClassOK(rf[i], o.seen[i]) THEN "class"
              ELSE IF \E i \in 1..np : ~PathOK(rf[i], o.seen[i]) THEN "path"
-             ELSE IF \E i \in 1..np : o.seen[i].c # rf[i].impl THEN "drift"
+             ELSE IF \E i \in 1..np : o.seen[i].c \notin {rf[i].impl, "syscall"} THEN "drift"
              ELSE "ok"
   IN [id |-> o.id, j |-> v,
       judged |-> \E i \in 1..np : rf[i].exp.judged,
